@@ -58,6 +58,15 @@ inline bool parent_complete(const GridState &st) {
     return true;
 }
 
+// true when the library's own inverse linear map (x*rate - shift) sends x outside [-1,1] by rounding (known finding *-wavelet-transformed-boundary)
+inline bool lib_canonical_outside(const TasmanianSparseGrid &g, const double *x) {
+    if (!g.isSetDomainTransfrom()) return false;
+    std::vector<double> a, b; g.getDomainTransform(a, b); int d = g.getNumDimensions();
+    for (int j = 0; j < d; j++) { double rate = 2.0 / (b[(size_t)j] - a[(size_t)j]), shift = (b[(size_t)j] + a[(size_t)j]) / (b[(size_t)j] - a[(size_t)j]);
+        double t = x[j]; t *= rate; t -= shift; if (std::fabs(t) > 1.0) return true; }
+    return false;
+}
+
 // Nodal reproduction (C01 oracle, reused by C09/C17/C18): every loaded point carries the dictionary value and evaluate*/batch reproduce it.
 // Returns the number of points checked. tau is relative to S = max(|v|_inf, sum_j |c_j||phi_j(x_i)|).
 inline long check_nodal(Ctx &ctx, const char *oracle, const GridState &st, double tau, bool assert_values = true) {
